@@ -77,6 +77,14 @@ def run_shard(desc, ctx):
                 continue
             for dt in ('int32', 'int64'):
                 run_case({'vec': list(vec), 'dtype': dt, 'shifted': bool(idx % 2), 'rot': idx}, ctx)
+    # -1 next to sparse large ids
+    for n in range(2, 5):
+        for vec in itertools.product([-1, 5, 70000], repeat=n):
+            idx += 1
+            if idx % ns != sh or -1 not in vec or 70000 not in vec:
+                continue
+            for dt in ('int32', 'int64'):
+                run_case({'vec': list(vec), 'dtype': dt, 'shifted': bool(idx % 2), 'rot': idx}, ctx)
     # dtype boundary ids
     for n in range(1, 5):
         for vec in itertools.product([0, 7, 300, 65535], repeat=n):
@@ -230,6 +238,8 @@ def run_case(case, ctx):
                     ('_flatten_per_cluster', lambda: pa._flatten_per_cluster(spc)),
                     ('grouped_mean', lambda: pa.grouped_mean(np.arange(n) * 1.5 + 1, sc)),
                     ('grouped_mean', lambda: pa.grouped_mean(arr2, sc)),
+                    # single-precision values far from zero (large clusters: the sum must not be accumulated in float32)
+                    ('grouped_mean', lambda: pa.grouped_mean((1000.3 + np.cos(np.arange(n)) * 0.01).astype(np.float32), sc)),
                     # values of very different magnitude / non-finite values in a lower cluster must not leak into others
                     ('grouped_mean', lambda: pa.grouped_mean(np.where(sc == ids_present[0], [1e17, np.nan, np.inf][n % 3], np.arange(n) + 1.), sc))):
         rr = call(f)
